@@ -41,7 +41,7 @@ func init() {
 			"a call that the simulator cancelled, or that hit the documented 5-minute limit, may return with any subset of the successful replacements applied (each applied completely), but must return an error if images are missing",
 			"workers that outlive a cancelled call are run to completion (without new faults) before the next call of the same run starts",
 		},
-		RealStub: map[string]string{"lib/imgbundler (bundle, runWorkers, worker, httpGet, cache)": "real", "net/http client": "real client over a simulated RoundTripper", "HTTP servers": "stub (tape-driven responses and body chunking)", "file system": "real kernel on a tmp sandbox with tape-driven fault points at openat/read", "clock, timers, context deadlines": "synctest fake clock", "goroutine scheduling": "simulator (park points worker.start/worker.done + every I/O step)", "map iteration / select order": "runtime seam, salted per run"},
+		RealStub: map[string]string{"lib/imgbundler (bundle, runWorkers, worker, httpGet, cache)": "real", "net/http client": "real client over a simulated RoundTripper", "HTTP servers": "stub (tape-driven responses and body chunking)", "file system": "real kernel on a tmp sandbox with tape-driven fault points at openat/read", "clock, timers, context deadlines": "synctest fake clock", "goroutine scheduling": "simulator (park points worker.start/worker.done + every I/O step + every attempt to lock imgbundler's mutex)", "map iteration / select order": "runtime seam, salted per run"},
 	}
 }
 
@@ -53,7 +53,8 @@ var watchRealStub = map[string]string{
 	"TCP listener / browsers / editor / operator": "simulated actors driven by the tape",
 	"kernel file system":                          "real (tmp sandbox); scheduling points when the compiler opens sources",
 	"clock and timers":                            "synctest fake clock; jumps stop early when a goroutine reaches a park point",
-	"goroutine scheduling":                        "simulator: 21 park points in watch.go + every actor step; one release per decision",
+	"goroutine scheduling":                        "simulator: 22 park points in watch.go, every attempt of d2 code to lock one of its mutexes (sync overlay), every actor step; one release per decision",
+	"mutexes of d2 (watcher's six)":               "simulated: a lock attempt is a scheduling point, a taken mutex leads back to it (no blocking inside the runtime); mutexes of libraries are real",
 	"map iteration / select order":                "runtime seam, salted per run",
 }
 
@@ -90,6 +91,7 @@ var pipeRealStub = map[string]string{
 	"import file system":                                                           "in-memory fs.FS whose Open is a scheduling point",
 	"caller tasks":                                                                 "goroutines released one at a time by the simulator at stage boundaries (start, import, compile, layout per nested graph, render per board) and at about 12 600 statement-level scheduling points written into d2's pipeline packages by a source overlay (no change to /repo)",
 	"map iteration / select":                                                       "runtime seam: a function of the tape, re-derived at every release",
+	"wall clock (time.Now) of a task":                                             "simulated: advances by a tape-chosen rate (50 ns ... 2 ms) per scheduling point, drawn anew for every slice",
 	"reference":                                                                    "separate OS process, different seed, reversed order, no neighbours",
 }
 
